@@ -122,3 +122,24 @@ Check ecmp_code_refines_spec :
     (forall p, In p (ecmp_paths fl (b :: l)) -> ecmp_tied fl p b)
     /\ (forall r x, b :: l = ecmp_paths fl (b :: l) ++ x :: r -> ~ ecmp_tied fl x b).
 Print Assumptions ecmp_code_refines_spec.
+
+(* The route-server local view shown by the API for a peer is an eligible path
+   of another route-server client that no other such path beats. *)
+Theorem rs_local_best :
+  forall shard ops net d peer e,
+    consistent ops ->
+    In (net, d) (t_dests (run (empty_table shard) ops)) ->
+    rs_local peer d = Some e ->
+    In e (d_entries d) /\ eligible e = true /\ s_role (e_src e) = 1 /\ s_addr (e_src e) <> peer
+    /\ forall x, In x (d_entries d) -> eligible x = true -> s_role (e_src x) = 1 -> s_addr (e_src x) <> peer ->
+                 not_worse (t_flags (run (empty_table shard) ops)) net e x.
+Proof. exact C02_rs_local_best. Qed.
+Check rs_local_best :
+  forall shard ops net d peer e,
+    consistent ops ->
+    In (net, d) (t_dests (run (empty_table shard) ops)) ->
+    rs_local peer d = Some e ->
+    In e (d_entries d) /\ eligible e = true /\ s_role (e_src e) = 1 /\ s_addr (e_src e) <> peer
+    /\ forall x, In x (d_entries d) -> eligible x = true -> s_role (e_src x) = 1 -> s_addr (e_src x) <> peer ->
+                 not_worse (t_flags (run (empty_table shard) ops)) net e x.
+Print Assumptions rs_local_best.
